@@ -32,6 +32,12 @@ func notFound(err error) bool { return errors.Is(err, db.ErrKeyNotFound) }
 
 // compare one state view with the model state `st` (the abstract state as of that block).
 func (k *checker) compare(where string, r core.StateReader, st *ref.State) {
+	k.compareView(where, r, st, false)
+}
+
+// compareView: historical = the reader was obtained by block number or hash (it must report a contract that did not
+// exist at that block as not found, also for storage reads; only the head reader is allowed to answer zero there).
+func (k *checker) compareView(where string, r core.StateReader, st *ref.State, historical bool) {
 	c := k.c
 	for _, a := range k.u.AllAddrs() {
 		a := a
@@ -64,8 +70,9 @@ func (k *checker) compare(where string, r core.StateReader, st *ref.State) {
 					c.Violation("storage", "%s %s: ContractStorage(%s, %s) = %s, %v; model %s", k.n.Backend(), where, a.ShortString(), key.ShortString(), v.ShortString(), err, want.ShortString())
 				}
 			} else {
-				// tolerance (DESIGN §4 C03): storage of a contract that does not exist may be "not found" or zero
-				if !(notFound(err) || (err == nil && v.IsZero())) {
+				// tolerance (DESIGN §4 C03): the HEAD reader answers zero for storage of a contract that does not exist;
+				// readers of a given block report it as not found (the property's wording, and what RPC v0.10 relies on)
+				if !(notFound(err) || (!historical && err == nil && v.IsZero())) {
 					c.Violation("storage-of-missing-contract", "%s %s: ContractStorage(%s, %s) = %s, %v; contract does not exist in the model", k.n.Backend(), where, a.ShortString(), key.ShortString(), v.ShortString(), err)
 				}
 			}
@@ -141,13 +148,13 @@ func (k *checker) sweep(ch *gen.Chain, step string) {
 		if err != nil {
 			c.Violation("state-at-number", "%s %s: StateAtBlockNumber(%d): %v", k.n.Backend(), step, b.Num(), err)
 		}
-		k.compare(fmt.Sprintf("%s @%d", step, b.Num()), sr, b.Post)
+		k.compareView(fmt.Sprintf("%s @%d", step, b.Num()), sr, b.Post, true)
 		_ = closer()
 		sr, closer, err = bc.StateAtBlockHash(b.B.Hash)
 		if err != nil {
 			c.Violation("state-at-hash", "%s %s: StateAtBlockHash(block %d): %v", k.n.Backend(), step, b.Num(), err)
 		}
-		k.compare(fmt.Sprintf("%s @hash(%d)", step, b.Num()), sr, b.Post)
+		k.compareView(fmt.Sprintf("%s @hash(%d)", step, b.Num()), sr, b.Post, true)
 		_ = closer()
 	}
 	if _, _, err := bc.StateAtBlockNumber(uint64(ch.Height())); err == nil {
@@ -170,8 +177,36 @@ func TestPropHistoricalReads(t *testing.T) {
 					if ch.Height() >= 9 {
 						t.Skip()
 					}
+					// readers of the current head block (by number and by hash) are opened BEFORE the store and must keep
+					// answering as of that block afterwards (they are views of a block, not of the moving head)
+					type held struct {
+						k      *checker
+						r      core.StateReader
+						closer func() error
+						how    string
+					}
+					var helds []held
+					var prev *gen.Block
+					if ch.Height() > 0 && rapid.IntRange(0, 2).Draw(t, "holdReaders") == 0 {
+						prev = ch.Blocks[ch.Height()-1]
+						for _, k := range cks {
+							if r, cl, err := k.n.BC.StateAtBlockNumber(prev.Num()); err == nil {
+								helds = append(helds, held{k, r, cl, "by number"})
+							}
+							if r, cl, err := k.n.BC.StateAtBlockHash(prev.B.Hash); err == nil {
+								helds = append(helds, held{k, r, cl, "by hash"})
+							}
+						}
+						c.Label("reader-held-across-store")
+					}
 					b := ch.Next(t)
 					c.Fp("store %d %s", b.Num(), gen.DiffString(b.SU.StateDiff))
+					defer func() {
+						for _, h := range helds {
+							h.k.compareView(fmt.Sprintf("reader of block %d opened %s while it was the head, read after block %d was stored", prev.Num(), h.how, b.Num()), h.r, prev.Post, true)
+							_ = h.closer()
+						}
+					}()
 					for tag := range b.Tags {
 						c.Label("blk:" + tag)
 					}
